@@ -94,3 +94,25 @@ package freelist
 //@ func Interface.EstimatedWritePageSize
 //@   ensures result >= 16
 //@   modifies nothing
+
+//@ func Interface.Rollback
+//@   ensures lastrollback == txId
+//@   modifies lastrollback, gfree, allmaps("common.Txid", "*txPending"), allmaps("common.Pgid", "common.Txid"), allmaps("common.Pgid", "struct{}")
+
+//@ func Interface.Reload
+//@   modifies gfree, all("array.ids"), allelems("common.Pgid"), all("shared.cache"), allmaps("common.Pgid", "struct{}"), all("hashMap.freePagesCount"), all("hashMap.freemaps"), all("hashMap.forwardMap"), all("hashMap.backwardMap"), allmaps("uint64", "freelist.pidSet"), allmaps("common.Pgid", "uint64")
+
+//@ func Interface.NoSyncReload
+//@   modifies gfree, all("array.ids"), allelems("common.Pgid"), all("shared.cache"), allmaps("common.Pgid", "struct{}"), all("hashMap.freePagesCount"), all("hashMap.freemaps"), all("hashMap.forwardMap"), all("hashMap.backwardMap"), allmaps("uint64", "freelist.pidSet"), allmaps("common.Pgid", "uint64")
+
+//@ func Interface.ReleasePendingPages
+//@   modifies gfree, all("array.ids"), allelems("common.Pgid"), allelems("common.Txid"), all("shared.readonlyTXIDs"), allmaps("common.Txid", "*txPending"), all("txPending.ids"), all("txPending.alloctx"), all("txPending.lastReleaseBegin"), all("hashMap.freePagesCount"), allmaps("uint64", "freelist.pidSet"), allmaps("common.Pgid", "uint64")
+
+//@ func Interface.Free
+//@   requires p != nil
+//@   modifies allmaps("common.Txid", "*txPending"), allmaps("common.Pgid", "common.Txid"), allmaps("common.Pgid", "struct{}"), all("txPending.ids"), all("txPending.alloctx"), all("txPending.lastReleaseBegin"), allelems("common.Pgid"), allelems("common.Txid")
+
+//@ func Interface.Write
+//@   requires page != nil
+//@   ensures page.flags == common.FreelistPageFlag && page.id == old(page.id) && page.overflow == old(page.overflow)
+//@   modifies page.flags, page.count, allelems("common.Pgid")
